@@ -210,9 +210,10 @@ PROPERTIES = {
         "level": "exploration",
         "level_text": "vote monitor: offline pass over the ground-truth sign log of every honest key after every step of the same hostile executions",
         "level_note": "leader of a view = what the node's own rotation answered; scripted/fixed/round-robin rotations only",
-        "technique": "runtime monitor (sign-log history oracle) over randomized and scripted hostile executions of the real stacks",
+        "technique": "runtime monitor (sign-log history oracle) over randomized and scripted hostile executions of the real stacks, and over the sign log of a live loopback gRPC cluster under the race detector",
         "rule": "C03: voting discipline",
-        "parts": [part("C03.sim", shards={"quick": 16, "thorough": 16}, floor=100, timeout={"quick": 900, "thorough": 14400})],
+        "parts": [part("C03.sim", shards={"quick": 16, "thorough": 16}, floor=100, timeout={"quick": 900, "thorough": 14400}),
+                  part("C03.live", race=True, shards={"quick": 4, "thorough": 16}, floor=1, timeout={"quick": 900, "thorough": 7200})],
     },
     "C07": {
         "level": "exploration",
